@@ -73,6 +73,30 @@ def sites(tier):
             add("cv-client-%s-%s" % (kn, S.VNAME[v]), "S", "CV", "signature",
                 version=v, cred="rsa", client_cred=ccred, req_cert=True,
                 suite=CS.TLS_RSA_WITH_AES_128_CBC_SHA)
+    # TLS 1.2 with the hash of the signature forced to each of the rarely
+    # chosen ones (the verifier's list names a single hash)
+    for h in ("sha1", "sha224", "sha384", "sha512"):
+        add("cv-client-rsa-TLS1.2-%s" % h, "S", "CV", "signature",
+            version=(3, 3), cred="rsa", client_cred="c_rsa", req_cert=True,
+            suite=CS.TLS_RSA_WITH_AES_128_CBC_SHA,
+            sset={"rsaSigHashes": [h], "rsaSchemes": ["pkcs1"]})
+        add("cv-client-ecdsa-TLS1.2-%s" % h, "S", "CV", "signature",
+            version=(3, 3), cred="rsa", client_cred="c_ecdsa", req_cert=True,
+            suite=CS.TLS_RSA_WITH_AES_128_CBC_SHA,
+            sset={"ecdsaSigHashes": [h]})
+        add("ske-ecdhe-rsa-TLS1.2-%s" % h, "C", "SKE", "signature",
+            version=(3, 3), cred="rsa",
+            suite=CS.TLS_ECDHE_RSA_WITH_AES_128_GCM_SHA256,
+            cset={"rsaSigHashes": [h], "rsaSchemes": ["pkcs1"]})
+        add("ske-ecdhe-ecdsa-TLS1.2-%s" % h, "C", "SKE", "signature",
+            version=(3, 3), cred="ecdsa",
+            suite=CS.TLS_ECDHE_ECDSA_WITH_AES_128_GCM_SHA256,
+            cset={"ecdsaSigHashes": [h]})
+    for h in ("sha1", "sha224", "sha256"):
+        add("cv-client-dsa-TLS1.2-%s" % h, "S", "CV", "signature",
+            version=(3, 3), cred="rsa", client_cred="c_dsa", req_cert=True,
+            suite=CS.TLS_RSA_WITH_AES_128_CBC_SHA,
+            sset={"dsaSigHashes": [h]})
     # TLS 1.3 CertificateVerify
     for (kn, cred) in (("rsa", "rsa"), ("rsapss", "rsapss"),
                        ("ecdsa", "ecdsa"), ("ecdsa384", "ecdsa384"),
